@@ -373,7 +373,10 @@ func (e *SpecEnv) ident(x *spec.Ident) Val {
 		}
 	}
 	if e.fr != nil {
-		if v, ok := e.fr.resolveLocal(name, e.state()); ok {
+		e.fr.oldMode = e.inOld
+		v, ok := e.fr.resolveLocal(name, e.state())
+		e.fr.oldMode = false
+		if ok {
 			return v
 		}
 	}
@@ -1263,17 +1266,32 @@ func (e *SpecEnv) callPureVals(x *spec.Call, f *ssa.Function, args []Val) Val {
 		sorts = append(sorts, e.sortOf(a))
 		terms = append(terms, e.termOf(a))
 	}
-	rt := sig.Results().At(0).Type()
-	n := vc.pureName(f, args, 0)
-	vc.declareFun(n, sorts, vc.S.Sort(rt))
-	app := "(" + n + " " + strings.Join(terms, " ") + ")"
-	res := Val{T: rt, Term: app}
+	var results []Val
+	var apps []string
+	for i := 0; i < sig.Results().Len(); i++ {
+		rt := sig.Results().At(i).Type()
+		n := vc.pureName(f, args, i)
+		vc.declareFun(n, sorts, vc.S.Sort(rt))
+		app := "(" + n + " " + strings.Join(terms, " ") + ")"
+		if len(terms) == 0 {
+			app = n
+		}
+		apps = append(apps, app)
+		results = append(results, Val{T: rt, Term: app})
+	}
+	if len(results) == 0 {
+		return e.fail(x, "%s has no result", f.Name())
+	}
+	app := apps[0]
 	// instantiate the ensures for closed applications (no bound variables)
-	if !strings.Contains(app, "?") {
+	if !strings.Contains(strings.Join(apps, " "), "?") {
 		key := "pureinst:" + app
 		if !vc.wf[key] {
 			vc.wf[key] = true
-			res.Term = vc.define("pr", vc.S.Sort(rt), app)
+			for i := range results {
+				results[i].Term = vc.define("pr", vc.S.Sort(results[i].T), apps[i])
+				vc.pureTerm[apps[i]] = results[i].Term
+			}
 			env := &SpecEnv{vc: vc, fr: nil, st: e.state(), old: e.state(), names: map[string]Val{}, bound: map[string]Val{}, pkg: calleePkg(f)}
 			if f.TypeParams().Len() > 0 {
 				if targs := inferTypeArgs(f, args); targs != nil {
@@ -1288,17 +1306,23 @@ func (e *SpecEnv) callPureVals(x *spec.Call, f *ssa.Function, args []Val) Val {
 					env.names[nme] = args[i]
 				}
 			}
-			env.results = []Val{res}
+			env.results = results
 			env.resultNames = resultNames(f, sp)
 			for _, en := range sp.Ensures {
 				vc.fact(env.compileBool(en.Expr))
 			}
-			vc.pureTerm[app] = res.Term
-		} else if t, ok := vc.pureTerm[app]; ok {
-			res.Term = t
+		} else {
+			for i := range results {
+				if t, ok := vc.pureTerm[apps[i]]; ok {
+					results[i].Term = t
+				}
+			}
 		}
 	}
-	return res
+	if len(results) == 1 {
+		return results[0]
+	}
+	return Val{T: sig.Results(), Tuple: results}
 }
 
 func inferTypeArgs(f *ssa.Function, args []Val) []types.Type {
@@ -1421,8 +1445,8 @@ func (e *SpecEnv) callIfacePure(x *spec.Call, key string, n *types.Named, method
 			sig = iface.Method(i).Type().(*types.Signature)
 		}
 	}
-	if sig == nil || sig.Results().Len() != 1 {
-		return e.fail(x, "interface method %s must have exactly one result to be used in a contract", method)
+	if sig == nil || sig.Results().Len() == 0 {
+		return e.fail(x, "interface method %s has no result to use in a contract", method)
 	}
 	all := append([]Val{recv}, args...)
 	var sorts, terms []string
@@ -1430,8 +1454,18 @@ func (e *SpecEnv) callIfacePure(x *spec.Call, key string, n *types.Named, method
 		sorts = append(sorts, e.sortOf(a))
 		terms = append(terms, e.termOf(a))
 	}
-	rt := sig.Results().At(0).Type()
-	name := "pure_" + sanitize(key)
-	vc.declareFun(name, sorts, vc.S.Sort(rt))
-	return Val{T: rt, Term: "(" + name + " " + strings.Join(terms, " ") + ")"}
+	var res []Val
+	for i := 0; i < sig.Results().Len(); i++ {
+		rt := sig.Results().At(i).Type()
+		name := "pure_" + sanitize(key)
+		if i > 0 {
+			name += fmt.Sprintf("_r%d", i)
+		}
+		vc.declareFun(name, sorts, vc.S.Sort(rt))
+		res = append(res, Val{T: rt, Term: "(" + name + " " + strings.Join(terms, " ") + ")"})
+	}
+	if len(res) == 1 {
+		return res[0]
+	}
+	return Val{T: sig.Results(), Tuple: res}
 }
